@@ -707,4 +707,530 @@ theorem evalKids_factors : ∀ (ks : List Q) (st : Stack ρ) (tag : String) (don
 end
 end factor
 
+
+/-! ### fusion of chained Select / Where steps on scalar-bodied lambdas -/
+
+def envOk (env : Stack Q) : Prop := ∀ x v, env.lookup x = some v → isDictNode v = false
+
+theorem simplify_var (fuel : Nat) (env : Stack Q) (n : Nat) (x : String) :
+    simplify (fuel + 1) env n (.var x) = ((env.lookup x).getD (.var x), n) := by
+  simp [simplify]
+
+theorem simplify_app_var_generic (fuel : Nat) (env : Stack Q) (n : Nat) (f : String) (as : List Q)
+    (h : opName f = false) :
+    simplify (fuel + 1) env n (.app (.var f) as) =
+      ((Q.app (simplify fuel env n (.var f)).1 (simplifyL fuel env (simplify fuel env n (.var f)).2 as).1),
+       (simplifyL fuel env (simplify fuel env n (.var f)).2 as).2) := by
+  simp only [opName, Bool.or_eq_false_iff, beq_eq_false_iff_ne, ne_eq] at h
+  obtain ⟨⟨⟨h1, h2⟩, h3⟩, h4⟩ := h
+  simp [simplify, h1, h2, h3]
+
+theorem notFirst_of_scalar (q : Q) (h : scalar q = true) : q.isCallOf "First" = false := by
+  cases q with
+  | app f as =>
+    cases f with
+    | var g =>
+      simp only [scalar, Bool.and_eq_true, Bool.not_eq_true', opName, Bool.or_eq_false_iff, beq_eq_false_iff_ne] at h
+      simp [Q.isCallOf, h.1.2]
+    | _ => simp [Q.isCallOf]
+  | _ => simp [Q.isCallOf]
+
+theorem notDict_subst (env : Stack Q) (henv : envOk env) (q : Q) (h : scalar q = true) :
+    isDictNode (subst env q) = false := by
+  cases q with
+  | var x =>
+    simp only [subst]
+    cases hl : env.lookup x with
+    | none => simp [isDictNode]
+    | some v => simpa using henv x v hl
+  | lit c => simp [subst, isDictNode]
+  | lam ps b => simp [scalar] at h
+  | app f as => simp [subst, isDictNode]
+  | node t ks =>
+    simp only [scalar, Bool.and_eq_true, tagOk, bne_iff_ne] at h
+    simp [subst, isDictNode, h.1.2]
+
+theorem depth_pos (t : Q) : 1 ≤ depth t := by cases t <;> simp [depth]
+
+theorem simplify_scalar : ∀ (fuel : Nat) (env : Stack Q) (henv : envOk env) (n : Nat),
+    (∀ (t : Q), scalar t = true → depth t ≤ fuel → simplify fuel env n t = (subst env t, n)) ∧
+    (∀ (ts : List Q), scalarL ts = true → depthL ts ≤ fuel → simplifyL fuel env n ts = (substL env ts, n)) := by
+  intro fuel
+  induction fuel with
+  | zero =>
+    intro env henv n
+    constructor
+    · intro t _ hd; cases t <;> simp [depth] at hd
+    · intro ts _ hd; cases ts <;> simp [depthL] at hd
+  | succ fuel ih =>
+    intro env henv n
+    have ih1 := fun t => (ih env henv n).1 t
+    have ih2 := fun ts => (ih env henv n).2 ts
+    constructor
+    · intro t hs hd
+      cases t with
+      | var x => simp [simplify, subst]
+      | lit c => simp [simplify, subst]
+      | lam ps b => simp [scalar] at hs
+      | node t ks =>
+        simp only [scalar, Bool.and_eq_true] at hs
+        simp only [depth] at hd
+        have hk := ih2 ks hs.2 (by omega)
+        have htag : t ≠ "sub" ∧ t ≠ "dict" := by simpa [tagOk] using hs.1
+        match ks, hk with
+        | [], hk => simp [simplify, subst, hk]
+        | [value], hk =>
+          simp only [scalarL, Bool.and_true] at hs
+          simp only [depthL] at hd
+          have hv := ih1 value hs.2 (by omega)
+          cases ha : attrName? t with
+          | none => simp [simplify, ha, subst, hk]
+          | some name =>
+            have hnf := notFirst_of_scalar value hs.2
+            have hnd := notDict_subst env henv value hs.2
+            simp only [simplify, ha, hnf, hv, subst, substL]
+            cases hsv : subst env value with
+            | node vt elts =>
+              rw [hsv] at hnd
+              simp only [isDictNode, beq_eq_false_iff_ne, ne_eq] at hnd
+              simp [hnd]
+            | _ => simp
+        | [value, slice], hk => simp [simplify, htag.1, subst, hk]
+        | a :: b :: c :: rest, hk => simp [simplify, subst, hk]
+      | app f as =>
+        cases f with
+        | var g =>
+          simp only [scalar, Bool.and_eq_true, Bool.not_eq_true'] at hs
+          simp only [depth] at hd
+          have ha := ih2 as hs.2 (by omega)
+          have hg : fuel ≥ 1 := by simp [depth] at hd; omega
+          obtain ⟨f', hf'⟩ : ∃ f', fuel = f' + 1 := ⟨fuel - 1, by omega⟩
+          rw [simplify_app_var_generic fuel env n g as hs.1]
+          have : simplify fuel env n (.var g) = (subst env (.var g), n) := by subst hf'; simp [simplify, subst]
+          simp [this, ha, subst]
+        | node t ks =>
+          match ks with
+          | [recv] =>
+            simp only [scalar, Bool.and_eq_true] at hs
+            simp only [depth] at hd
+            have ha := ih2 as hs.2 (by omega)
+            have hnf := notFirst_of_scalar recv hs.1.2
+            have hnode : scalar (.node t [recv]) = true := by simp [scalar, scalarL, hs.1.1, hs.1.2]
+            have hf := ih1 (.node t [recv]) hnode (by simp [depth]; omega)
+            simp [simplify, hnf, hf, ha, subst]
+          | [] => simp [scalar] at hs
+          | _ :: _ :: _ => simp [scalar] at hs
+        | lit c => simp [scalar] at hs
+        | lam ps b => simp [scalar] at hs
+        | app g bs => simp [scalar] at hs
+    · intro ts hs hd
+      cases ts with
+      | nil => simp [simplifyL, substL]
+      | cons q qs =>
+        simp only [scalarL, Bool.and_eq_true] at hs
+        simp only [depthL] at hd
+        have h1 := ih1 q hs.1 (by omega)
+        have h2 := ih2 qs hs.2 (by omega)
+        simp [simplifyL, substL, h1, h2]
+
+mutual
+theorem subst_nil : ∀ (t : Q), subst [] t = t
+  | .var x => by simp [subst, Stack.lookup]
+  | .lit c => by simp [subst]
+  | .lam ps b => by simp [subst, subst_nil b]
+  | .app f as => by simp [subst, subst_nil f, substL_nil as]
+  | .node t ks => by simp [subst, substL_nil ks]
+theorem substL_nil : ∀ (ts : List Q), substL [] ts = ts
+  | [] => by simp [substL]
+  | q :: qs => by simp [substL, subst_nil q, substL_nil qs]
+end
+
+theorem lookup_single (k : String) (v : Q) (u : String) :
+    Stack.lookup [[(k, v)]] u = if u = k then some v else none := by
+  by_cases h : u = k <;> simp [Stack.lookup, Frame.get?, h]
+
+mutual
+/-- on a lambda-free term `make_args_unique`'s renaming is a plain renaming; followed by the substitution for the
+new name it is the substitution for the old one -/
+theorem subst_ren : ∀ (t : Q) (x a : String) (v : Q), scalar t = true → a ∉ allNames t →
+    subst [[(a, v)]] (renVars [(x, a)] t) = subst [[(x, v)]] t
+  | .var u, x, a, v, _, ha => by
+    simp only [allNames, List.mem_singleton] at ha
+    simp only [renVars, renLookup, subst, lookup_single]
+    by_cases hu : u = x
+    · simp [hu]
+    · have : ¬ u = a := fun e => ha e.symm
+      simp [hu, this]
+  | .lit c, _, _, _, _, _ => by simp [renVars, subst]
+  | .lam ps b, _, _, _, hs, _ => by simp [scalar] at hs
+  | .app (.var g) as, x, a, v, hs, ha => by
+    simp only [scalar, Bool.and_eq_true] at hs
+    simp only [allNames, List.mem_append, not_or] at ha
+    have h1 := subst_ren (.var g) x a v (by simp [scalar]) ha.1
+    have h2 := substL_ren as x a v hs.2 ha.2
+    simp only [renVars, subst] at h1 ⊢
+    rw [h1, h2]
+  | .app (.node t [recv]) as, x, a, v, hs, ha => by
+    simp only [scalar, Bool.and_eq_true] at hs
+    simp only [allNames, allNamesL, List.mem_append, not_or, List.append_nil] at ha
+    have h1 := subst_ren recv x a v hs.1.2 ha.1
+    have h2 := substL_ren as x a v hs.2 ha.2
+    simp only [renVars, renVarsL, subst, substL]
+    rw [h1, h2]
+  | .app (.node t []) as, _, _, _, hs, _ => by simp [scalar] at hs
+  | .app (.node t (_ :: _ :: _)) as, _, _, _, hs, _ => by simp [scalar] at hs
+  | .app (.lit c) as, _, _, _, hs, _ => by simp [scalar] at hs
+  | .app (.lam ps b) as, _, _, _, hs, _ => by simp [scalar] at hs
+  | .app (.app g bs) as, _, _, _, hs, _ => by simp [scalar] at hs
+  | .node t ks, x, a, v, hs, ha => by
+    simp only [scalar, Bool.and_eq_true] at hs
+    simp only [allNames] at ha
+    simp only [renVars, subst]
+    rw [substL_ren ks x a v hs.2 ha]
+theorem substL_ren : ∀ (ts : List Q) (x a : String) (v : Q), scalarL ts = true → a ∉ allNamesL ts →
+    substL [[(a, v)]] (renVarsL [(x, a)] ts) = substL [[(x, v)]] ts
+  | [], _, _, _, _, _ => by simp [renVarsL, substL]
+  | q :: qs, x, a, v, hs, ha => by
+    simp only [scalarL, Bool.and_eq_true] at hs
+    simp only [allNamesL, List.mem_append, not_or] at ha
+    simp only [renVarsL, substL]
+    rw [subst_ren q x a v hs.1 ha.1, substL_ren qs x a v hs.2 ha.2]
+end
+
+theorem opName_argName (k : Nat) : opName (argName k) = false := by
+  have h1 : argName k ≠ "Select" := by
+    intro h; have := congrArg String.toList h; simp [argName] at this
+  have h2 : argName k ≠ "SelectMany" := by
+    intro h; have := congrArg String.toList h; simp [argName] at this
+  have h3 : argName k ≠ "Where" := by
+    intro h; have := congrArg String.toList h; simp [argName] at this
+  have h4 : argName k ≠ "First" := by
+    intro h; have := congrArg String.toList h; simp [argName] at this
+  simp [opName, h1, h2, h3, h4]
+
+mutual
+theorem scalar_ren : ∀ (t : Q) (x a : String), opName a = false → scalar t = true → scalar (renVars [(x, a)] t) = true
+  | .var u, _, _, _, _ => by simp [renVars, scalar]
+  | .lit c, _, _, _, _ => by simp [renVars, scalar]
+  | .lam ps b, _, _, _, hs => by simp [scalar] at hs
+  | .app (.var g) as, x, a, ha, hs => by
+    simp only [scalar, Bool.and_eq_true, Bool.not_eq_true'] at hs
+    simp only [renVars, renLookup, scalar, Bool.and_eq_true, Bool.not_eq_true', scalarL_ren as x a ha hs.2, and_true]
+    by_cases hg : g = x
+    · simp [hg, ha]
+    · simp [hg, hs.1]
+  | .app (.node t [recv]) as, x, a, ha, hs => by
+    simp only [scalar, Bool.and_eq_true] at hs
+    simp [renVars, renVarsL, scalar, hs.1.1, scalar_ren recv x a ha hs.1.2, scalarL_ren as x a ha hs.2]
+  | .app (.node t []) as, _, _, _, hs => by simp [scalar] at hs
+  | .app (.node t (_ :: _ :: _)) as, _, _, _, hs => by simp [scalar] at hs
+  | .app (.lit c) as, _, _, _, hs => by simp [scalar] at hs
+  | .app (.lam ps b) as, _, _, _, hs => by simp [scalar] at hs
+  | .app (.app g bs) as, _, _, _, hs => by simp [scalar] at hs
+  | .node t ks, x, a, ha, hs => by
+    simp only [scalar, Bool.and_eq_true] at hs
+    simp [renVars, scalar, hs.1, scalarL_ren ks x a ha hs.2]
+theorem scalarL_ren : ∀ (ts : List Q) (x a : String), opName a = false → scalarL ts = true → scalarL (renVarsL [(x, a)] ts) = true
+  | [], _, _, _, _ => by simp [renVarsL, scalarL]
+  | q :: qs, x, a, ha, hs => by
+    simp only [scalarL, Bool.and_eq_true] at hs
+    simp [renVarsL, scalarL, scalar_ren q x a ha hs.1, scalarL_ren qs x a ha hs.2]
+end
+
+mutual
+theorem depth_ren : ∀ (t : Q) (m : List (String × String)), depth (renVars m t) = depth t
+  | .var u, _ => by simp [renVars, depth]
+  | .lit c, _ => by simp [renVars, depth]
+  | .lam ps b, m => by simp [renVars, depth, depth_ren b]
+  | .app f as, m => by simp [renVars, depth, depth_ren f m, depthL_ren as m]
+  | .node t ks, m => by simp [renVars, depth, depthL_ren ks m]
+theorem depthL_ren : ∀ (ts : List Q) (m : List (String × String)), depthL (renVarsL m ts) = depthL ts
+  | [], _ => by simp [renVarsL, depthL]
+  | q :: qs, m => by simp [renVarsL, depthL, depth_ren q m, depthL_ren qs m]
+end
+
+theorem envOk_single (k : String) (v : Q) (h : isDictNode v = false) : envOk [[(k, v)]] := by
+  intro u v' hl
+  rw [lookup_single] at hl
+  by_cases hu : u = k <;> simp [hu] at hl
+  subst hl; exact h
+
+/-- the β-reduction of the composition `(λa0. G)((λa1. B)(w))` of two scalar-bodied lambdas -/
+theorem comp_beta (F n : Nat) (a0 a1 w : String) (G B : Q) (hG : scalar G = true) (hB : scalar B = true)
+    (hdG : depth G + 1 ≤ F) (hdB : depth B + 3 ≤ F) :
+    simplify (F + 1) [] n (.app (.lam [a0] G) [.app (.lam [a1] B) [.var w]]) =
+      (subst [[(a0, subst [[(a1, .var w)]] B)]] G, n) := by
+  have hpB := depth_pos B
+  obtain ⟨F1, rfl⟩ : ∃ F1, F = F1 + 1 := ⟨F - 1, by omega⟩
+  obtain ⟨F2, rfl⟩ : ∃ F2, F1 = F2 + 1 := ⟨F1 - 1, by omega⟩
+  obtain ⟨F3, rfl⟩ : ∃ F3, F2 = F3 + 1 := ⟨F2 - 1, by omega⟩
+  obtain ⟨F4, rfl⟩ : ∃ F4, F3 = F4 + 1 := ⟨F3 - 1, by omega⟩
+  have envB : envOk [[(a1, Q.var w)]] := envOk_single _ _ rfl
+  have hb := (simplify_scalar (F4 + 1 + 1) [[(a1, .var w)]] envB n).1 B hB (by omega)
+  have envG : envOk [[(a0, subst [[(a1, Q.var w)]] B)]] := envOk_single _ _ (notDict_subst _ envB B hB)
+  have hg := (simplify_scalar (F4 + 1 + 1 + 1 + 1) [[(a0, subst [[(a1, .var w)]] B)]] envG n).1 G hG (by omega)
+  simp [simplify, simplifyL, Stack.lookup, hb, hg]
+
+theorem idx_single_ne (w u : String) (h : u ≠ w) : idx [w] u = none := by simp [idx, h]
+
+mutual
+theorem resolve_subst_fresh : ∀ (t : Q) (k w w' : String) (V V' : Q), scalar t = true →
+    w ∉ allNames t → w' ∉ allNames t → resolve [w] V = resolve [w'] V' →
+    resolve [w] (subst [[(k, V)]] t) = resolve [w'] (subst [[(k, V')]] t)
+  | .var u, k, w, w', V, V', _, hw, hw', hV => by
+    simp only [allNames, List.mem_singleton] at hw hw'
+    simp only [subst, lookup_single]
+    by_cases hu : u = k
+    · simpa [hu] using hV
+    · simp [hu, resolve, idx_single_ne w u (fun e => hw e.symm), idx_single_ne w' u (fun e => hw' e.symm)]
+  | .lit c, _, _, _, _, _, _, _, _, _ => by simp [subst, resolve]
+  | .lam ps b, _, _, _, _, _, hs, _, _, _ => by simp [scalar] at hs
+  | .app (.var g) as, k, w, w', V, V', hs, hw, hw', hV => by
+    simp only [scalar, Bool.and_eq_true] at hs
+    simp only [allNames, List.mem_append, not_or] at hw hw'
+    have h1 := resolve_subst_fresh (.var g) k w w' V V' (by simp [scalar]) hw.1 hw'.1 hV
+    have h2 := resolveL_subst_fresh as k w w' V V' hs.2 hw.2 hw'.2 hV
+    simp only [subst, resolve] at h1 ⊢
+    rw [h1, h2]
+  | .app (.node t [recv]) as, k, w, w', V, V', hs, hw, hw', hV => by
+    simp only [scalar, Bool.and_eq_true] at hs
+    simp only [allNames, allNamesL, List.mem_append, not_or, List.append_nil] at hw hw'
+    have h1 := resolve_subst_fresh recv k w w' V V' hs.1.2 hw.1 hw'.1 hV
+    have h2 := resolveL_subst_fresh as k w w' V V' hs.2 hw.2 hw'.2 hV
+    simp only [subst, substL, resolve, resolveL]
+    rw [h1, h2]
+  | .app (.node t []) as, _, _, _, _, _, hs, _, _, _ => by simp [scalar] at hs
+  | .app (.node t (_ :: _ :: _)) as, _, _, _, _, _, hs, _, _, _ => by simp [scalar] at hs
+  | .app (.lit c) as, _, _, _, _, _, hs, _, _, _ => by simp [scalar] at hs
+  | .app (.lam ps b) as, _, _, _, _, _, hs, _, _, _ => by simp [scalar] at hs
+  | .app (.app g bs) as, _, _, _, _, _, hs, _, _, _ => by simp [scalar] at hs
+  | .node t ks, k, w, w', V, V', hs, hw, hw', hV => by
+    simp only [scalar, Bool.and_eq_true] at hs
+    simp only [allNames] at hw hw'
+    simp only [subst, resolve]
+    rw [resolveL_subst_fresh ks k w w' V V' hs.2 hw hw' hV]
+theorem resolveL_subst_fresh : ∀ (ts : List Q) (k w w' : String) (V V' : Q), scalarL ts = true →
+    w ∉ allNamesL ts → w' ∉ allNamesL ts → resolve [w] V = resolve [w'] V' →
+    resolveL [w] (substL [[(k, V)]] ts) = resolveL [w'] (substL [[(k, V')]] ts)
+  | [], _, _, _, _, _, _, _, _, _ => by simp [substL, resolveL]
+  | q :: qs, k, w, w', V, V', hs, hw, hw', hV => by
+    simp only [scalarL, Bool.and_eq_true] at hs
+    simp only [allNamesL, List.mem_append, not_or] at hw hw'
+    simp only [substL, resolveL]
+    rw [resolve_subst_fresh q k w w' V V' hs.1 hw.1 hw'.1 hV, resolveL_subst_fresh qs k w w' V V' hs.2 hw.2 hw'.2 hV]
+end
+
+/-- the composed body does not depend on the name of the composition's parameter -/
+theorem compose_alpha (fb gb : Q) (x y w w' : String) (hf : scalar fb = true) (hg : scalar gb = true)
+    (hw : w ∉ allNames fb ∧ w ∉ allNames gb) (hw' : w' ∉ allNames fb ∧ w' ∉ allNames gb) :
+    resolve [w] (subst [[(y, subst [[(x, .var w)]] fb)]] gb) =
+    resolve [w'] (subst [[(y, subst [[(x, .var w')]] fb)]] gb) := by
+  apply resolve_subst_fresh gb y w w' _ _ hg hw.2 hw'.2
+  apply resolve_subst_fresh fb x w w' _ _ hf hw.1 hw'.1
+  simp [resolve, idx]
+
+theorem simplify_lam_scalar (F n : Nat) (ps : List String) (b : Q) (hb : scalar b = true) (hd : depth b ≤ F) :
+    simplify (F + 1) [] n (.lam ps b) = (.lam ps b, n) := by
+  have := (simplify_scalar F [] (by intro u v h; simp [Stack.lookup] at h) n).1 b hb hd
+  simp [simplify, this, subst_nil]
+
+theorem isIdentity_lam_iff (w : String) (B : Q) : isIdentity (.lam [w] B) = true ↔ B = .var w := by
+  cases B <;> simp [isIdentity]
+  rename_i u; constructor <;> intro h <;> exact h.symm
+
+theorem resolve_eq_bvar0 (w : String) (B : Q) (h : resolve [w] B = .bvar 0) : B = .var w := by
+  cases B with
+  | var u =>
+    simp only [resolve, idx] at h
+    by_cases hu : u = w
+    · rw [hu]
+    · simp [hu] at h
+  | _ => simp [resolve] at h
+
+/-- two single-parameter lambdas with α-equal bodies give α-equal `make_Select` results -/
+theorem makeSelect_alpha (p0 : Q) (w w' : String) (B B' : Q) (h : resolve [w] B = resolve [w'] B') :
+    resolve [] (makeSelect p0 (.lam [w] B)) = resolve [] (makeSelect p0 (.lam [w'] B')) := by
+  by_cases hi : B = .var w
+  · have hi' : B' = .var w' := by
+      apply resolve_eq_bvar0
+      rw [← h, hi]; simp [resolve, idx]
+    simp [makeSelect, (isIdentity_lam_iff w B).2 hi, (isIdentity_lam_iff w' B').2 hi']
+  · have hi' : ¬ B' = .var w' := by
+      intro e; apply hi; apply resolve_eq_bvar0
+      rw [h, e]; simp [resolve, idx]
+    have e1 : isIdentity (.lam [w] B) = false := by
+      cases hh : isIdentity (.lam [w] B) with
+      | false => rfl
+      | true => exact absurd ((isIdentity_lam_iff w B).1 hh) hi
+    have e2 : isIdentity (.lam [w'] B') = false := by
+      cases hh : isIdentity (.lam [w'] B') with
+      | false => rfl
+      | true => exact absurd ((isIdentity_lam_iff w' B').1 hh) hi'
+    simp [makeSelect, e1, e2, Q.call, resolve, resolveL, h]
+
+theorem simplify_lam (F : Nat) (env : Stack Q) (n : Nat) (ps : List String) (b : Q) :
+    simplify (F + 1) env n (.lam ps b) = (.lam ps (simplify F env n b).1, (simplify F env n b).2) := by
+  simp [simplify]
+
+/-- `call_Select` when the simplified source is neither a Select nor a SelectMany -/
+theorem simplify_Select_plain (F : Nat) (env : Stack Q) (n n1 : Nat) (src sel p0 : Q) (hl : isLam sel = true)
+    (hsrc : simplify F env n src = (p0, n1)) (h1 : p0.isCallOf "Select" = false) (h2 : p0.isCallOf "SelectMany" = false) :
+    simplify (F + 1) env n (Q.call "Select" [src, sel]) =
+      (makeSelect p0 (simplify F env n1 sel).1, (simplify F env n1 sel).2) := by
+  simp [Q.call, simplify, hl, hsrc, h1, h2]
+
+/-- `visit_Select_of_Select` -/
+theorem simplify_Select_fuse (F : Nat) (env : Stack Q) (n n1 : Nat) (src sel source f : Q) (hl : isLam sel = true)
+    (hsrc : simplify F env n src = (Q.call "Select" [source, f], n1)) :
+    simplify (F + 1) env n (Q.call "Select" [src, sel]) =
+      (makeSelect source (simplify F env (convolute n1 sel f).2 (convolute n1 sel f).1).1,
+       (simplify F env (convolute n1 sel f).2 (convolute n1 sel f).1).2) := by
+  simp [Q.call, simplify, hl, hsrc, Q.isCallOf]
+
+theorem fusion_select_core (F n n1 : Nat) (s p0 fb gb : Q) (x y z : String)
+    (hs : simplify F [] n s = (p0, n1))
+    (hp : p0.isCallOf "Select" = false ∧ p0.isCallOf "SelectMany" = false)
+    (hfb : scalar fb = true) (hgb : scalar gb = true) (hid : fb ≠ .var x)
+    (hF : depth fb + 5 ≤ F ∧ depth gb + 5 ≤ F)
+    (hfresh : ∀ w ∈ [argName n1, argName (n1 + 1), argName (n1 + 2), z], w ∉ allNames fb ∧ w ∉ allNames gb) :
+    resolve [] (simplify (F + 2) [] n (Q.call "Select" [Q.call "Select" [s, .lam [x] fb], .lam [y] gb])).1 =
+    resolve [] (simplify (F + 1) [] n
+      (Q.call "Select" [s, .lam [z] (.app (.lam [y] gb) [.app (.lam [x] fb) [.var z]])])).1 := by
+  obtain ⟨F2, rfl⟩ : ∃ F2, F = F2 + 1 + 1 := ⟨F - 2, by omega⟩
+  generalize hF1 : F2 + 1 = F1 at *
+  have hf0 := hfresh (argName n1) (by simp)
+  have hf1 := hfresh (argName (n1 + 1)) (by simp)
+  have hf2 := hfresh (argName (n1 + 2)) (by simp)
+  have hfz := hfresh z (by simp)
+  -- the inner Select of the separately written chain
+  have hlamf : simplify (F1 + 1) [] n1 (.lam [x] fb) = (.lam [x] fb, n1) := simplify_lam_scalar F1 n1 [x] fb hfb (by omega)
+  have hnid : isIdentity (.lam [x] fb) = false := by
+    cases hh : isIdentity (.lam [x] fb) with
+    | false => rfl
+    | true => exact absurd ((isIdentity_lam_iff x fb).1 hh) hid
+  have hinner : simplify (F1 + 1 + 1) [] n (Q.call "Select" [s, .lam [x] fb]) = (Q.call "Select" [p0, .lam [x] fb], n1) := by
+    rw [simplify_Select_plain (F1 + 1) [] n n1 s _ p0 rfl hs hp.1 hp.2, hlamf]
+    simp [makeSelect, hnid]
+  -- the composition func_adl builds, β-reduced
+  have hG : scalar (renVars [(y, argName n1)] gb) = true := scalar_ren gb y _ (opName_argName n1) hgb
+  have hB : scalar (renVars [(x, argName (n1 + 1))] fb) = true := scalar_ren fb x _ (opName_argName (n1 + 1)) hfb
+  have hsep := comp_beta F1 (n1 + 3) (argName n1) (argName (n1 + 1)) (argName (n1 + 2)) _ _ hG hB
+    (by rw [depth_ren]; omega) (by rw [depth_ren]; omega)
+  rw [subst_ren fb x (argName (n1 + 1)) _ hfb hf1.1, subst_ren gb y (argName n1) _ hgb hf0.2] at hsep
+  have hfus := comp_beta F2 n1 y x z gb fb hgb hfb (by omega) (by omega)
+  rw [hF1] at hfus
+  have key := compose_alpha fb gb x y (argName (n1 + 2)) z hfb hgb hf2 hfz
+  have hconv : convolute n1 (.lam [y] gb) (.lam [x] fb) =
+      (.lam [argName (n1 + 2)] (.app (.lam [argName n1] (renVars [(y, argName n1)] gb))
+        [.app (.lam [argName (n1 + 1)] (renVars [(x, argName (n1 + 1))] fb)) [.var (argName (n1 + 2))]]), n1 + 3) := by
+    simp [convolute, makeArgsUnique, argNames]
+  have e1 : (simplify (F1 + 1 + 2) [] n (Q.call "Select" [Q.call "Select" [s, .lam [x] fb], .lam [y] gb])).1 =
+      makeSelect p0 (.lam [argName (n1 + 2)] (subst [[(y, subst [[(x, .var (argName (n1 + 2)))]] fb)]] gb)) := by
+    rw [simplify_Select_fuse (F1 + 1 + 1) [] n n1 _ _ p0 (.lam [x] fb) rfl hinner]
+    simp only [hconv]
+    rw [simplify_lam, hsep]
+  have e2 : (simplify (F1 + 1 + 1) [] n (Q.call "Select" [s, .lam [z] (.app (.lam [y] gb) [.app (.lam [x] fb) [.var z]])])).1 =
+      makeSelect p0 (.lam [z] (subst [[(y, subst [[(x, .var z)]] fb)]] gb)) := by
+    rw [simplify_Select_plain (F1 + 1) [] n n1 s _ p0 rfl hs hp.1 hp.2, simplify_lam, hfus]
+  rw [e1, e2]
+  exact makeSelect_alpha p0 _ _ _ _ key
+
+/-- β-reduction of `(λk. B)(w)` for a scalar body -/
+theorem beta_one (F n : Nat) (k w : String) (B : Q) (hB : scalar B = true) (hd : depth B + 2 ≤ F) :
+    simplify (F + 1) [] n (.app (.lam [k] B) [.var w]) = (subst [[(k, .var w)]] B, n) := by
+  have hpB := depth_pos B
+  obtain ⟨F1, rfl⟩ : ∃ F1, F = F1 + 1 := ⟨F - 1, by omega⟩
+  obtain ⟨F2, rfl⟩ : ∃ F2, F1 = F2 + 1 := ⟨F1 - 1, by omega⟩
+  have hb := (simplify_scalar (F2 + 1 + 1) [[(k, .var w)]] (envOk_single _ _ rfl) n).1 B hB (by omega)
+  simp [simplify, simplifyL, Stack.lookup, hb]
+
+theorem simplify_node2 (F : Nat) (env : Stack Q) (n : Nat) (t : String) (a b : Q) (h : (t == "sub") = false) :
+    simplify (F + 1) env n (.node t [a, b]) =
+      (.node t (simplifyL F env n [a, b]).1, (simplifyL F env n [a, b]).2) := by
+  simp [simplify, h]
+
+theorem simplifyL_cons (F : Nat) (env : Stack Q) (n : Nat) (q : Q) (qs : List Q) :
+    simplifyL (F + 1) env n (q :: qs) =
+      ((simplify F env n q).1 :: (simplifyL F env (simplify F env n q).2 qs).1,
+       (simplifyL F env (simplify F env n q).2 qs).2) := by
+  simp [simplifyL]
+
+theorem simplifyL_nil (F : Nat) (env : Stack Q) (n : Nat) : simplifyL (F + 1) env n [] = ([], n) := by
+  simp [simplifyL]
+
+/-- the conjunction func_adl builds when it fuses two Wheres, β-reduced -/
+theorem and_beta (F n : Nat) (x y w : String) (fb gb : Q) (hf : scalar fb = true) (hg : scalar gb = true)
+    (hd : depth fb + 6 ≤ F ∧ depth gb + 6 ≤ F) :
+    simplify (F + 1) [] n (.node "bool:And" [.app (.lam [x] fb) [.var w], .app (.lam [y] gb) [.var w]]) =
+      (.node "bool:And" [subst [[(x, .var w)]] fb, subst [[(y, .var w)]] gb], n) := by
+  obtain ⟨F1, rfl⟩ : ∃ F1, F = F1 + 1 + 1 + 1 + 1 := ⟨F - 4, by omega⟩
+  have h1 := beta_one (F1 + 1 + 1) n x w fb hf (by omega)
+  have h2 := beta_one (F1 + 1) n y w gb hg (by omega)
+  have hne : ("bool:And" == "sub") = false := by decide
+  rw [simplify_node2 _ _ _ _ _ _ hne, simplifyL_cons, h1, simplifyL_cons, h2, simplifyL_nil]
+
+/-- `call_Where` when the simplified source is none of Where / Select / SelectMany -/
+theorem simplify_Where_plain (F : Nat) (env : Stack Q) (n n1 : Nat) (src flt p0 : Q) (hl : isLam flt = true)
+    (hsrc : simplify F env n src = (p0, n1))
+    (h0 : p0.isCallOf "Where" = false) (h1 : p0.isCallOf "Select" = false) (h2 : p0.isCallOf "SelectMany" = false) :
+    simplify (F + 1) env n (Q.call "Where" [src, flt]) =
+      (if isTrueLam (simplify F env n1 flt).1 then p0 else Q.call "Where" [p0, (simplify F env n1 flt).1],
+       (simplify F env n1 flt).2) := by
+  have e1 : ("Where" == "Select") = false := by decide
+  have e2 : ("Where" == "SelectMany") = false := by decide
+  simp only [Q.call, simplify, e1, e2, hl, hsrc, h0, h1, h2]
+  by_cases hc : isTrueLam (simplify F env n1 flt).1 = true <;> simp [hc]
+
+/-- `visit_Where_of_Where` -/
+theorem simplify_Where_fuse (F : Nat) (env : Stack Q) (n n1 : Nat) (src flt source f : Q) (hl : isLam flt = true)
+    (hsrc : simplify F env n src = (Q.call "Where" [source, f], n1)) :
+    simplify (F + 1) env n (Q.call "Where" [src, flt]) =
+      simplify F env (n1 + 1) (Q.call "Where" [source,
+        .lam [argName n1] (.node "bool:And" [.app f [.var (argName n1)], .app flt [.var (argName n1)]])]) := by
+  have e1 : ("Where" == "Select") = false := by decide
+  have e2 : ("Where" == "SelectMany") = false := by decide
+  simp [Q.call, simplify, e1, e2, hl, hsrc, Q.isCallOf]
+
+theorem fusion_where_core (F n n1 : Nat) (s p0 fb gb : Q) (x y z : String)
+    (hs : simplify F [] n s = (p0, n1))
+    (hstable : simplify F [] (n1 + 1) p0 = (p0, n1 + 1))
+    (hp : p0.isCallOf "Where" = false ∧ p0.isCallOf "Select" = false ∧ p0.isCallOf "SelectMany" = false)
+    (hfb : scalar fb = true) (hgb : scalar gb = true) (htrue : fb ≠ .lit "bool:True")
+    (hF : depth fb + 8 ≤ F ∧ depth gb + 8 ≤ F)
+    (hfresh : ∀ w ∈ [argName n1, z], w ∉ allNames fb ∧ w ∉ allNames gb) :
+    resolve [] (simplify (F + 2) [] n (Q.call "Where" [Q.call "Where" [s, .lam [x] fb], .lam [y] gb])).1 =
+    resolve [] (simplify (F + 1) [] n
+      (Q.call "Where" [s, .lam [z] (.node "bool:And" [.app (.lam [x] fb) [.var z], .app (.lam [y] gb) [.var z]])])).1 := by
+  obtain ⟨F2, rfl⟩ : ∃ F2, F = F2 + 1 + 1 := ⟨F - 2, by omega⟩
+  generalize hF1 : F2 + 1 = F1 at *
+  have hfa := hfresh (argName n1) (by simp)
+  have hfz := hfresh z (by simp)
+  have hlamf : simplify (F1 + 1) [] n1 (.lam [x] fb) = (.lam [x] fb, n1) := simplify_lam_scalar F1 n1 [x] fb hfb (by omega)
+  have hnt : isTrueLam (.lam [x] fb) = false := by
+    cases fb <;> simp [isTrueLam]
+    rename_i c; intro e; exact htrue (by rw [e])
+  have hinner : simplify (F1 + 1 + 1) [] n (Q.call "Where" [s, .lam [x] fb]) = (Q.call "Where" [p0, .lam [x] fb], n1) := by
+    rw [simplify_Where_plain (F1 + 1) [] n n1 s _ p0 rfl hs hp.1 hp.2.1 hp.2.2, hlamf]
+    simp [hnt]
+  have hand1 := and_beta F2 (n1 + 1) x y (argName n1) fb gb hfb hgb (by omega)
+  have hand2 := and_beta F2 n1 x y z fb gb hfb hgb (by omega)
+  rw [hF1] at hand1 hand2
+  have hnt2 : ∀ (w : String) (B : List Q), isTrueLam (.lam [w] (.node "bool:And" B)) = false := by
+    intro w B; simp [isTrueLam]
+  have e1 : (simplify (F1 + 1 + 2) [] n (Q.call "Where" [Q.call "Where" [s, .lam [x] fb], .lam [y] gb])).1 =
+      Q.call "Where" [p0, .lam [argName n1]
+        (.node "bool:And" [subst [[(x, .var (argName n1))]] fb, subst [[(y, .var (argName n1))]] gb])] := by
+    rw [simplify_Where_fuse (F1 + 1 + 1) [] n n1 _ _ p0 (.lam [x] fb) rfl hinner,
+      simplify_Where_plain (F1 + 1) [] (n1 + 1) (n1 + 1) p0 _ p0 rfl hstable hp.1 hp.2.1 hp.2.2, simplify_lam, hand1]
+    simp [hnt2]
+  have e2 : (simplify (F1 + 1 + 1) [] n (Q.call "Where" [s, .lam [z]
+        (.node "bool:And" [.app (.lam [x] fb) [.var z], .app (.lam [y] gb) [.var z]])])).1 =
+      Q.call "Where" [p0, .lam [z] (.node "bool:And" [subst [[(x, .var z)]] fb, subst [[(y, .var z)]] gb])] := by
+    rw [simplify_Where_plain (F1 + 1) [] n n1 s _ p0 rfl hs hp.1 hp.2.1 hp.2.2, simplify_lam, hand2]
+    simp [hnt2]
+  rw [e1, e2]
+  have k1 := resolve_subst_fresh fb x (argName n1) z (.var (argName n1)) (.var z) hfb hfa.1 hfz.1 (by simp [resolve, idx])
+  have k2 := resolve_subst_fresh gb y (argName n1) z (.var (argName n1)) (.var z) hgb hfa.2 hfz.2 (by simp [resolve, idx])
+  simp [Q.call, resolve, resolveL, k1, k2]
+
 end FaxVerif.C08
